@@ -23,12 +23,13 @@ VARIABLES
     open,       \* [ep -> set of <<pid, uid>> on the wire and not yet passed]
     frames,     \* [ep -> [fid -> [nonce, frags]]] for frame ids still in the sender's log
     tsFresh,    \* [ep -> TimeSensitive uids sent since the last step() and not yet begun]
+    nfrag,      \* sequence over uid: number of fragments
     stale,      \* set of <<uid, txNext>>: TimeSensitive uids not begun at the step after their send
     lastTxNext, \* [ep -> tx_next logged at the latest FlushEnd]
     obs,        \* counter: TimeSensitive packets first sent after the step although pulled before it
     bad
 
-vars == <<l, sub, emitted, begun, acked, passed, open, frames, tsFresh, stale, lastTxNext, obs, bad>>
+vars == <<l, sub, emitted, begun, acked, passed, open, frames, tsFresh, nfrag, stale, lastTxNext, obs, bad>>
 
 Eps == {"a", "b"}
 None == [e \in Eps |-> {}]
@@ -36,20 +37,21 @@ NoFrames == [e \in Eps |-> <<>>]
 
 Init ==
     /\ l = 1 /\ sub = <<>> /\ emitted = {} /\ begun = {} /\ acked = {} /\ passed = {} /\ open = None
-    /\ frames = NoFrames /\ tsFresh = None /\ stale = {} /\ lastTxNext = [e \in Eps |-> 0] /\ obs = 0 /\ bad = {}
+    /\ frames = NoFrames /\ tsFresh = None /\ nfrag = <<>> /\ stale = {} /\ lastTxNext = [e \in Eps |-> 0] /\ obs = 0 /\ bad = {}
 
 Flag(p, why) == IF Cardinality(bad) < 200 THEN {<<p, why, l>>} ELSE {}
 
 Reset ==
     /\ IsEvent("Reset")
     /\ sub' = <<>> /\ emitted' = {} /\ begun' = {} /\ acked' = {} /\ passed' = {} /\ open' = None
-    /\ frames' = NoFrames /\ tsFresh' = None /\ stale' = {} /\ lastTxNext' = [e \in Eps |-> 0]
+    /\ frames' = NoFrames /\ tsFresh' = None /\ nfrag' = <<>> /\ stale' = {} /\ lastTxNext' = [e \in Eps |-> 0]
     /\ UNCHANGED <<obs, bad>>
 
 Send ==
     /\ IsEvent("Send")
     /\ Cur.uid = Len(sub) + 1
     /\ sub' = Append(sub, [ep |-> Cur.ep, mode |-> Cur.mode, sn |-> Cur.sn])
+    /\ nfrag' = Append(nfrag, Cur.nfrag)
     /\ tsFresh' = IF Cur.mode = "T" THEN [tsFresh EXCEPT ![Cur.ep] = @ \cup {Cur.uid}] ELSE tsFresh
     /\ UNCHANGED <<emitted, begun, acked, passed, open, frames, stale, lastTxNext, obs, bad>>
 
@@ -60,12 +62,12 @@ Step ==
     /\ LET e == Cur.ep IN
        /\ stale' = stale \cup {<<u, lastTxNext[e]>> : u \in tsFresh[e]}
        /\ tsFresh' = [tsFresh EXCEPT ![e] = {}]
-    /\ UNCHANGED <<sub, emitted, begun, acked, passed, open, frames, lastTxNext, obs, bad>>
+    /\ UNCHANGED <<sub, emitted, begun, acked, passed, open, frames, nfrag, lastTxNext, obs, bad>>
 
 FlushEnd ==
     /\ IsEvent("FlushEnd")
     /\ lastTxNext' = [lastTxNext EXCEPT ![Cur.ep] = Cur.tx_next]
-    /\ UNCHANGED <<sub, emitted, begun, acked, passed, open, frames, tsFresh, stale, obs, bad>>
+    /\ UNCHANGED <<sub, emitted, begun, acked, passed, open, frames, tsFresh, nfrag, stale, obs, bad>>
 
 StaleLimit(u) == CHOOSE p \in stale : p[1] = u
 IsStale(u) == \E p \in stale : p[1] = u
@@ -105,8 +107,14 @@ Emit ==
             /\ open' = [open EXCEPT ![e] = @ \cup {<<dgs[i].pid, dgs[i].uid>> : i \in {k \in known : dgs[k].uid \notin passed}}]
             /\ frames' = [frames EXCEPT ![e] = (Cur.fid :> [nonce |-> Cur.nonce, frags |-> pairs]) @@ @]
        ELSE /\ bad' = bad \cup (IF Cur.len > 1472 THEN Flag("C04", "frame-larger-than-1472") ELSE {})
+                 \* a sync frame offering a packet-window resynchronisation gives up on everything below its packet id:
+                 \* no Persistent / Reliable packet with an unacknowledged fragment may be below it
+                 \cup (IF Cur.kind = "S" /\ Cur.has_npid
+                          /\ \E pr \in open[Cur.ep] : pr[1] < Cur.npid /\ sub[pr[2]].mode \in {"P", "R"}
+                                                       /\ \E fg \in 0..(nfrag[pr[2]] - 1) : <<pr[2], fg>> \notin acked
+                       THEN Flag("C12", "gave-up-on-unacknowledged-reliable-mode-fragment") ELSE {})
             /\ UNCHANGED <<obs, emitted, begun, tsFresh, open, frames>>
-    /\ UNCHANGED <<sub, acked, passed, stale, lastTxNext>>
+    /\ UNCHANGED <<sub, acked, passed, nfrag, stale, lastTxNext>>
 
 Bit(g, i) == IF i < 16 THEN (g.bits_lo \div (2 ^ i)) % 2 ELSE (g.bits_hi \div (2 ^ (i - 16))) % 2
 SetBits(g) == {i \in 0..31 : Bit(g, i) = 1}
@@ -141,15 +149,15 @@ HandleAck ==
        /\ passed' = passed \cup {p[2] : p \in gone}
        /\ open' = [open EXCEPT ![e] = @ \ gone]
        /\ frames' = [frames EXCEPT ![e] = [k \in {x \in DOMAIN F : x >= lo} |-> F[k]]]
-    /\ UNCHANGED <<sub, emitted, begun, tsFresh, stale, lastTxNext, obs, bad>>
+    /\ UNCHANGED <<sub, emitted, begun, tsFresh, nfrag, stale, lastTxNext, obs, bad>>
 
 HandleOther ==
     /\ IsEvent("Handle") /\ Cur.kind # "A"
-    /\ UNCHANGED <<sub, emitted, begun, acked, passed, open, frames, tsFresh, stale, lastTxNext, obs, bad>>
+    /\ UNCHANGED <<sub, emitted, begun, acked, passed, open, frames, tsFresh, nfrag, stale, lastTxNext, obs, bad>>
 
 Skip ==
     /\ IsOneOf({"End", "FaultsEnd", "Net", "Probe", "Deliver", "Quiesced", "Ret", "Probes", "RecvEnd"})
-    /\ UNCHANGED <<sub, emitted, begun, acked, passed, open, frames, tsFresh, stale, lastTxNext, obs, bad>>
+    /\ UNCHANGED <<sub, emitted, begun, acked, passed, open, frames, tsFresh, nfrag, stale, lastTxNext, obs, bad>>
 
 Next == Reset \/ Send \/ Step \/ FlushEnd \/ Emit \/ HandleAck \/ HandleOther \/ Skip
 
